@@ -83,3 +83,30 @@ Theorem C10_recycled_effect : forall c outcome ct st lv tr0,
   (md_empty (odiff o tr) = true -> queue (fst r) = queue st).
 Proof. exact recycled_effect. Qed.
 Print Assumptions C10_recycled_effect.
+
+(** ** R = 0: "an object is never both live and trashed, and nothing about it remains"
+    A client that runs without trashbin never puts anything into any of its four trashbin caches:
+    for every configuration without retention, every handler behaviour (failures and partial
+    failures on any invocation), every remediation and foreign-key policy, every clock and every
+    delivery, over any number of loop iterations (retry passes and purge passes included).  So no
+    object is ever both live and trashed, and the caches keep no trashed remainder of a removed
+    object.  (Starting from non-empty trashbins - retention switched from R to 0 across a restart -
+    is finding F23.) *)
+From Hermes Require Import Proofs.ClientNoTrash.
+Theorem C10_R0_trashbins_stay_empty : forall c outcome,
+  cc_retention c = None ->
+  forall (its : list (Z * list (Z * cev))) cl,
+  tb_empty (cl_st cl) ->
+  tb_empty (cl_st (fold_left (fun cl it => client_iter c outcome cl (fst it) (snd it)) its cl)).
+Proof. exact run_tb. Qed.
+Print Assumptions C10_R0_trashbins_stay_empty.
+Corollary C10_R0_never_live_and_trashed : forall c outcome,
+  cc_retention c = None ->
+  forall its cl i, tb_empty (cl_st cl) ->
+  let st := cl_st (fold_left (fun cl it => client_iter c outcome cl (fst it) (snd it)) its cl) in
+  l_trash st !! i = None /\ r_trash st !! i = None /\ lc_trash st !! i = None /\ rc_trash st !! i = None.
+Proof. exact run_never_both. Qed.
+Print Assumptions C10_R0_never_live_and_trashed.
+(** non-vacuity: the initial state of a client satisfies the hypothesis *)
+Example C10_R0_initial_state : tb_empty cstate0.
+Proof. repeat split. Qed.
